@@ -158,10 +158,30 @@ func (b *recBackend) HandleRequest(ctx context.Context, req *logical.Request) (*
 			b.st.mu.Lock()
 			b.st.Renewed[id]++
 			b.st.mu.Unlock()
+			if fresh, _ := req.Secret.InternalData["fresh"].(bool); fresh {
+				// like the backends that answer a renewal with a newly built
+				// Secret (zero IssueTime) instead of echoing the request's
+				ttl, _ := intField(req.Secret.InternalData, "ttl")
+				maxTTL, _ := intField(req.Secret.InternalData, "max_ttl")
+				return &logical.Response{Secret: &logical.Secret{
+					LeaseOptions: logical.LeaseOptions{TTL: time.Duration(ttl) * time.Second, MaxTTL: time.Duration(maxTTL) * time.Second, Renewable: true},
+					InternalData: req.Secret.InternalData,
+				}}, nil
+			}
 			resp := &logical.Response{Secret: req.Secret}
 			return resp, nil
 		}
 		if req.Auth != nil {
+			if fresh, _ := req.Auth.InternalData["fresh"].(bool); fresh {
+				ttl, _ := intField(req.Auth.InternalData, "ttl")
+				maxTTL, _ := intField(req.Auth.InternalData, "max_ttl")
+				return &logical.Response{Auth: &logical.Auth{
+					Policies:     req.Auth.Policies,
+					DisplayName:  req.Auth.DisplayName,
+					InternalData: req.Auth.InternalData,
+					LeaseOptions: logical.LeaseOptions{TTL: time.Duration(ttl) * time.Second, MaxTTL: time.Duration(maxTTL) * time.Second, Renewable: true},
+				}}, nil
+			}
 			return &logical.Response{Auth: req.Auth}, nil
 		}
 		return nil, nil
@@ -193,6 +213,11 @@ func (b *recBackend) HandleRequest(ctx context.Context, req *logical.Request) (*
 				LeaseOptions: logical.LeaseOptions{TTL: ttl, MaxTTL: maxTTL, Renewable: true},
 				InternalData: map[string]interface{}{"id": id, "secret_type": "rec"},
 			},
+		}
+		if strings.HasPrefix(req.Path, "lease/fresh/") {
+			resp.Secret.InternalData["fresh"] = true
+			resp.Secret.InternalData["ttl"] = int(ttl / time.Second)
+			resp.Secret.InternalData["max_ttl"] = int(maxTTL / time.Second)
 		}
 		return resp, nil
 	case req.Path == "prog":
@@ -261,6 +286,9 @@ func (b *recBackend) HandleRequest(ctx context.Context, req *logical.Request) (*
 		}
 		if d, ok := intField(req.Data, "explicit_max_ttl"); ok {
 			auth.ExplicitMaxTTL = time.Duration(d) * time.Second
+		}
+		if f, _ := req.Data["fresh"].(bool); f {
+			auth.InternalData = map[string]interface{}{"fresh": true, "ttl": int(auth.TTL / time.Second), "max_ttl": int(auth.MaxTTL / time.Second)}
 		}
 		return &logical.Response{Auth: auth}, nil
 	}
